@@ -2,7 +2,7 @@
    Property theorems only; every proof is `exact <lemma>`. *)
 From Coq Require Import List String ZArith NArith Bool Permutation.
 From AV Require Import Model.VTypes Model.Interval Model.CL Model.VerifierLegacy Model.VerifierW3C Model.VCfg Model.VProps Model.CaseV
-  Proofs.IntervalProofs Proofs.C02Proofs Proofs.C08Proofs Proofs.C08T1 Proofs.C08T2 Proofs.C08T3 Model.Prover Model.PProps Proofs.C04F10 Proofs.C04G6.
+  Proofs.IntervalProofs Proofs.C02Proofs Proofs.C08Proofs Proofs.C08T1 Proofs.C08T2 Proofs.C08T3 Model.Prover Model.PProps Proofs.C04F10 Proofs.C04G6 Proofs.VW3CC1 Proofs.VW3CC2.
 Import ListNotations.
 Open Scope Z_scope.
 
@@ -68,6 +68,34 @@ Theorem C08_nonrevocable_ignores_intervals : forall cfg R cx cd local id, cd_rev
   interval_check cfg R cx cd local id = ROk false.
 Proof. exact nonrevocable_ignores_intervals. Qed.
 
+(* W3C FORMAT: the interval stage of ONE candidate entry for ONE referent (check_credential_non_revoked_interval), for
+   every setting of the flags with the credential-definition gate on. The referent's demand is its own interval if it has
+   one, the request-wide one otherwise. Non-revocable definition or no demand: passes, nothing required. Revocable
+   definition and a demand: passes (and requires a non-revocation proof) EXACTLY when the entry names a registry and a
+   timestamp inside the demanded interval, lower bound overridden; otherwise the candidate is refused. *)
+Theorem C08_w3c_stage_nonrevocable : forall cfg, f_gate_on_creddef cfg = true -> forall R cx id local cd,
+  assoc (id_creddef id) (cx_creddefs cx) = Some cd -> cd_revkey cd = None -> cred_interval cfg R cx id local = ROk false.
+Proof. exact cred_interval_nonrevocable. Qed.
+Theorem C08_w3c_stage_no_demand : forall cfg, f_gate_on_creddef cfg = true -> forall R cx id local cd,
+  assoc (id_creddef id) (cx_creddefs cx) = Some cd -> demand R local = None -> cred_interval cfg R cx id local = ROk false.
+Proof. exact cred_interval_no_demand. Qed.
+Theorem C08_w3c_stage_demand : forall cfg, f_gate_on_creddef cfg = true -> forall R cx id local cd k iv,
+  assoc (id_creddef id) (cx_creddefs cx) = Some cd -> cd_revkey cd = Some k -> demand R local = Some iv ->
+  cred_interval cfg R cx id local =
+    match id_revreg id, id_ts id with
+    | Some rid, Some t => if is_valid (ovr_for cx (Some rid) iv) t then ROk true else RErr
+    | _, _ => RErr
+    end.
+Proof. exact cred_interval_demand. Qed.
+(* the whole conditions stage of a candidate (restriction, then interval): met if the restriction is true of the entry
+   and the demand is met (demand_met: the three cases above as one proposition), and only if the demand is met *)
+Theorem C08_w3c_conditions_complete : forall cfg, f_gate_on_creddef cfg = true -> forall R cx c id q local,
+  restriction_true cfg cx c id q -> demand_met R cx id local -> exists b, cred_conditions cfg R cx c id q local = Some b.
+Proof. exact cred_conditions_complete. Qed.
+Theorem C08_w3c_conditions_sound : forall cfg, f_gate_on_creddef cfg = true -> forall R cx c id q local b,
+  cred_conditions cfg R cx c id q local = Some b -> demand_met R cx id local.
+Proof. exact cred_conditions_sound. Qed.
+
 Print Assumptions C08_merge_meet.
 Print Assumptions C08_merge_assoc.
 Print Assumptions C08_merge_order_independent.
@@ -80,3 +108,8 @@ Print Assumptions C08_demands_met_stage_passes.
 Print Assumptions C08_legacy_complete.
 Print Assumptions C08_complete_nonvacuous.
 Print Assumptions C08_nonrevocable_ignores_intervals.
+Print Assumptions C08_w3c_stage_nonrevocable.
+Print Assumptions C08_w3c_stage_no_demand.
+Print Assumptions C08_w3c_stage_demand.
+Print Assumptions C08_w3c_conditions_complete.
+Print Assumptions C08_w3c_conditions_sound.
